@@ -1016,6 +1016,7 @@ func (cpu *CPU) Step() (int, bool) {
 	}
 
 	// instruction execution
+	ea &= 0x00ffffff // indexed effective addresses wrap on 24 bits
 	cpu.StepInfo = StepInfo{ea, addr, mode}
 	cpu.instructions[opcode].proc()
 
